@@ -504,7 +504,7 @@ func (ex *Exec) checkPost(fr *Frame, s *State, results []Value, retIdx int) {
 		}
 		sort.Strings(names)
 		for _, n := range names {
-			if allowed[n] || n == "alloc" || n == "atype" || n == "blen" {
+			if allowed[n] || n == "alloc" || n == "atype" || n == "blen" || coveredBy(allowed, n) {
 				continue
 			}
 			before, ok := fr.entry.heap[n]
@@ -1604,4 +1604,18 @@ func (ex *Exec) returnOrdinal(fr *Frame) int {
 		}
 	}
 	return 0
+}
+
+// coveredBy: a slice- or string-typed field f is stored as the arrays f.obj, f.off, f.len,
+// f.cap; naming f in an assigns / frameExcept list covers them.
+func coveredBy(set map[string]bool, n string) bool {
+	for i := len(n) - 1; i > 0; i-- {
+		if n[i] == '.' && set[n[:i]] {
+			switch n[i+1:] {
+			case "obj", "off", "len", "cap":
+				return true
+			}
+		}
+	}
+	return false
 }
